@@ -140,7 +140,9 @@ pub fn run(rep: &mut Report, thorough: bool) {
                 predicate: "the operation completes or returns an error; it never exhausts the stack".into(),
                 signature: format!("C19 stack op={} construct={}", op, c),
             });
-            if let Some(floor) = floors.get(&format!("{} {} {}", op, c, th)) {
+            // (only on the worker threads, whose stack size this harness fixes at 2 MiB; the main thread's depends on the
+            //  environment's stack limit)
+            if let Some(floor) = floors.get(&format!("{} {} {}", op, c, th)).filter(|_| th.starts_with("worker")) {
                 if d < *floor {
                     rep.add_finding(Finding {
                         kind: "impl-violates-property".into(),
